@@ -16,7 +16,7 @@ func genC15(t *rapid.T) C15Scn {
 		s.Trials = append(s.Trials, C15Trial{
 			Cmd:      rapid.SampledFrom([]string{"submit", "cancel", "release", "force-release", "results"}).Draw(t, "cmd"),
 			Conn:     rapid.SampledFrom([]string{"unix", "tcp", "tcp", "mesh"}).Draw(t, "conn"),
-			Type:     rapid.SampledFrom([]string{"vprod", "vprod", "vprod", "prod", "remote-signed", "remote-plain", "unknown"}).Draw(t, "type"),
+			Type:     rapid.SampledFrom([]string{"vprod", "vprod", "vprod", "prod", "remote-signed", "remote-plain", "unknown", "vprod-case"}).Draw(t, "type"),
 			Token:    rapid.SampledFrom(append(append([]string{}, c15Tokens...), "expired-replay")).Draw(t, "token"),
 			JSONForm: rapid.IntRange(0, 4).Draw(t, "json") > 0,
 		})
@@ -26,7 +26,7 @@ func genC15(t *rapid.T) C15Scn {
 
 func TestC15(t *testing.T) {
 	st := vx.NewStats("C15", "signatures", "an in-process node with a verifying work type, a non-verifying one, remote units with and without signing, a verification key file and control services on a Unix socket, TCP and the mesh; "+
-		"1-5 trials {submit, cancel, release, force-release, results} x connection kind x work type x token from {absent, empty, garbage, valid RS512, audience list containing the node, expired, other audience, no audience, other key, "+
+		"1-5 trials {submit, cancel, release, force-release, results} x connection kind x work type (verifying, non-verifying, remote signed / plain, unknown, the verifying type's name in other capitalisation) x token from {absent, empty, garbage, valid RS512, audience list containing the node, expired, other audience, no audience, other key, "+
 		"alg none, HS256/384/512 keyed with the public key PEM, truncated, tampered payload, RS256 with the right key, no exp, nbf in the future, a short-lived token used while valid and replayed 3 s later after it expired}; tokens are built by hand; oracle = reference decision (refuse a token where none is "+
 		"expected; require a valid one where expected unless on the Unix socket), effects observed on disk / unit state / bytes streamed; non-trivial = a token-expecting type over a non-Unix connection; distinct by canonical JSON")
 	defer st.Flush()
